@@ -55,7 +55,7 @@ def eval_block(case):
             back_lo = lg.letter_id_to_number(lo)
             back_up = lg.letter_id_to_number(up)
         except Exception:
-            V.append(Violation('letters.exception', {'index': i}, {'traceback': traceback.format_exc()[-600:]}))
+            V.append(sut.exc_violation({'index': i}, 'letters.exception'))
             break
         n += 1
         if lo != want or up != want.upper():
@@ -157,7 +157,7 @@ def eval_history(case):
         else:
             check_labels(s, shown, exps, case, V)
     except Exception:
-        V.append(Violation('exception', case, {'traceback': traceback.format_exc()[-1500:]}))
+        V.append(sut.exc_violation(case))
     return Eval(V, outcome=len(V), nontrivial=hc.nontrivial(case.get('history', [])) or 'scripts' in case,
                 transitions=len(case.get('history', case.get('order', []))))
 
@@ -209,7 +209,7 @@ def eval_many_connections(case):
         else:
             check_labels(s, shown, exps, case, V)
     except Exception:
-        V.append(Violation('exception', case, {'traceback': traceback.format_exc()[-1500:]}))
+        V.append(sut.exc_violation(case))
     return Eval(V, nontrivial=True, transitions=2 * n)
 
 
